@@ -39,9 +39,11 @@ mut("c03-retx-bit-moved", "C03", ASH, "                    | (self.re_tx) << 3\n
 # (dropping the RSTACK version check is not a violation of any stated property: not a mutant)
 
 # ---- C04 -------------------------------------------------------------------------------
-mut("c04-ack-nak-swapped", "C04", ASH,
-    "            _LOGGER.debug(\"Received an out of sequence frame: %r\", frame)\n            self._write_frame(NakFrame(",
-    "            _LOGGER.debug(\"Received an out of sequence frame: %r\", frame)\n            self._write_frame(AckFrame(")
+# (answering an out-of-sequence DATA frame with an ACK carrying the next expected number instead of a NAK is no longer
+#  listed: C04 fixes the kind of the answer only for an accepted frame - see DESIGN 9.2, benign change C01-C)
+mut("c04-accepted-frame-answered-with-nak", "C04", ASH,
+    "            self._rx_seq = (frame.frm_num + 1) % 8\n            self._write_frame(AckFrame(res=0, ncp_ready=0, ack_num=self._rx_seq))",
+    "            self._rx_seq = (frame.frm_num + 1) % 8\n            self._write_frame(NakFrame(res=0, ncp_ready=0, ack_num=self._rx_seq))")
 mut("c04-rstack-not-zeroing-rx", "C04", ASH, "        self._tx_seq = 0\n        self._rx_seq = 0\n", "        self._tx_seq = 0\n")
 mut("c04-acknum-is-frmnum", "C04", ASH,
     "            self._rx_seq = (frame.frm_num + 1) % 8\n            self._write_frame(AckFrame(res=0, ncp_ready=0, ack_num=self._rx_seq))",
